@@ -510,7 +510,8 @@ Lemma id_facts : forall valid encs prev level name id,
    ( (is_content id = true /\ (is_preamble id || is_meta id || beq id sec_file_diff) = true /\
       beq id sec_main = false /\ beq id sec_change = false /\ beq id sec_file = false /\
       prev = depth id /\ List.length encs = prev + 2)
-     \/ (is_content id = false /\ beq id sec_main = true /\ level = 0 /\ prev = 0 /\ List.length encs = 1)
+     \/ (is_content id = false /\ beq id sec_main = true /\ level = 0 /\ prev = 0 /\ List.length encs = 1 /\
+         depth id = 0)
      \/ (is_content id = false /\ beq id sec_main = false /\ (beq id sec_change || beq id sec_file) = true /\
          level <= prev + 1 /\ List.length encs = prev + 2 /\ level = depth id /\
          (beq id sec_change = true -> level = 1) /\
@@ -524,7 +525,7 @@ Proof.
   - cbn [in_ids mem] in Hin. unfold in_ids in Hin. cbn [mem] in Hin. rewrite orb_false_r in Hin.
     pose proof (beq_true _ _ Hin) as E. fold sec_main in E. subst id.
     destruct (table_get sec_main) as [nxt|]; [|discriminate]. exists nxt. split; [reflexivity|].
-    right; left. repeat split; auto; try congruence.
+    right; left. unfold depth. rewrite M2. repeat split; auto; try congruence.
   - pose proof (follows _ _ _ Hk Hin) as F. unfold follows_ok in F.
     destruct (table_get id) as [nxt|]; [|discriminate]. exists nxt. split; [reflexivity|].
     cbn [andb] in F. destruct (is_content id) eqn:C.
